@@ -83,6 +83,24 @@ def body(c, ctx):
     kind = gm.mesh_kind(desc)
     m = build_mesh(desc)
     d = m.dim()
+    # cells selected by a NAME that was given on a coarser mesh and carried through refined(k) by the library: the selection
+    # the name must stand for is found geometrically (brute-force parent map)
+    carried = None
+    if c['what'] == 'cells' and c['spell'] == 'name' and c['fpick2'] % 4 != 3 and kind in ('tri', 'quad', 'tet', 'hex', 'line') \
+            and 'curved' not in desc['feat']:
+        lev = 2 if c['fpick2'] % 4 != 0 else 1
+        cap = {1: 16, 2: 8, 3: 2}[d]
+        if lev == 2 and m.nelements > cap and desc['cls'].endswith('1'):
+            m = m.restrict(np.arange(cap, dtype=np.int32))          # a small piece of the generated mesh: two levels stay cheap
+        if m.nelements * (2 ** d) ** lev <= 150:
+            import dataclasses
+            from ..oracle import geom
+            Cc = np.array(list(dict.fromkeys(int(k) % m.nelements for k in c['picks'])), dtype=np.int32)
+            tagged = m.with_subdomains({'sel': Cc}).refined(lev)
+            parent = geom.parent_map(m, tagged)
+            carried = (tagged, [int(k) for k in np.nonzero(np.isin(parent, Cc))[0]])
+            m = dataclasses.replace(tagged, _subdomains=None, _boundaries=None)
+            ctx.cls(f'name-carried-through-refined({lev})')
     eld = c['elem']
     e = build_element(eld)
     lab = ge.label(eld)
@@ -181,7 +199,7 @@ def body(c, ctx):
         sel = dict(sel_vertices=vs, sel_edges=es, sel_facets=set(F), sel_cells=set())
         ctx.nt((c['pool'] != 'boundary' or len(F) < len(bf)) and kinds_with >= 2)
     elif what == 'cells':
-        C = list(dict.fromkeys(int(k) % m.nelements for k in c['picks']))
+        C = list(dict.fromkeys(int(k) % m.nelements for k in c['picks'])) if carried is None else carried[1]
         Ca = np.array(C, dtype=np.int32)
         cen = m.p[:, m.t].mean(axis=1)
         chosen = cen[:, Ca]
@@ -193,7 +211,7 @@ def body(c, ctx):
             def arg(x, chosen=chosen, h=h):
                 return np.array([np.any(np.all(np.abs(chosen - x[:, k:k + 1]) <= 1e-12 * h, axis=0)) for k in range(x.shape[1])])
         elif c['spell'] == 'name':
-            mm = m.with_subdomains({'sel': Ca})
+            mm = m.with_subdomains({'sel': Ca}) if carried is None else carried[0]
             arg = 'sel'
         else:
             mm = m.with_subdomains({'b': Ca[1::2]})
